@@ -81,7 +81,7 @@ func randRoutes(r *rand.Rand, depth, maxRoutes int) []*Route {
 		case k < 3:
 			rt.Handlers = []Handler{{Kind: "sink"}}
 		case k < 6:
-			rt.Handlers = []Handler{{Kind: "take", N: r.Intn(5)}}
+			rt.Handlers = []Handler{{Kind: "take", N: r.Intn(5), Flip: r.Intn(4) == 0}}
 		case k < 7:
 			rt.Handlers = []Handler{{Kind: "take", N: r.Intn(4)}, {Kind: "sink"}}
 		case k < 8:
